@@ -5,6 +5,7 @@ import (
 	"os"
 	"path/filepath"
 	"runtime"
+	"strings"
 	"sync"
 	"time"
 
@@ -50,6 +51,9 @@ func runHistories(c *core.Ctx, which string) {
 			cases = append(cases, id)
 		}
 	}
+	if which == "C02" && c.Want("named/shared-source-reverted-after-sibling-build") {
+		cases = append([]string{"named/shared-source-reverted-after-sibling-build"}, cases...)
+	}
 	workers := runtime.NumCPU() - 2
 	if workers > 14 {
 		workers = 14
@@ -57,10 +61,54 @@ func runHistories(c *core.Ctx, which string) {
 	c.RunSharded(cases, core.ShardOpts{Mode: "hist-" + which, Workers: workers, Timeout: 30 * time.Minute})
 }
 
+// c02Named: deterministic scenarios of C02 (known findings live here).
+func c02Named(c *core.Ctx, id string) {
+	dir := filepath.Join(c.Scratch, fmt.Sprintf("c02n-%d", os.Getpid()))
+	os.RemoveAll(dir)
+	defer os.RemoveAll(dir)
+	s := pj.NewSession(dir)
+	os.WriteFile(filepath.Join(s.Root, "dawn.toml"), []byte("name = \"n\"\n"), 0o644)
+	os.WriteFile(filepath.Join(s.Root, "BUILD.dawn"), []byte(`@target(sources=["shared.txt"], generates=["out/a.txt"])
+def a(self):
+    v.body("//:a", [1], ["shared.txt"], "out/a.txt")
+@target(sources=["shared.txt"], generates=["out/b.txt"])
+def b(self):
+    v.body("//:b", [2], ["shared.txt"], "out/b.txt")
+`), 0o644)
+	src := filepath.Join(s.Root, "shared.txt")
+	os.WriteFile(src, []byte("content X\n"), 0o644)
+	build := func(t string) []string {
+		from := s.LogLen()
+		pj.Build(pj.BuildReq{Root: s.Root, Target: t})
+		var ex []string
+		for _, le := range s.ReadLog(from) {
+			if le.Kind == "S" {
+				ex = append(ex, le.Label)
+			}
+		}
+		return ex
+	}
+	build("//:a")
+	build("//:b")
+	os.Remove(src)                                   // the shared source disappears
+	build("//:a")                                    // only the sibling is built meanwhile
+	os.WriteFile(src, []byte("content X\n"), 0o644) // ... and comes back unchanged
+	ex := build("//:b")
+	c.Eval(id)
+	c.Distinct(id + "/b")
+	if len(ex) > 0 {
+		c.Violation(id, id, "spurious", map[string]any{"executed": ex, "history": []string{"build //:a", "build //:b", "rm shared.txt", "build //:a", "restore shared.txt (same content)", "build //:b -> //:b executes although its source has the content of its last execution"}})
+	}
+}
+
 func init() {
 	for _, which := range []string{"C01", "C02"} {
 		which := which
 		registerCase("hist-"+which, func(c *core.Ctx, id string) {
+			if strings.HasPrefix(id, "named/") {
+				c02Named(c, id)
+				return
+			}
 			var i int
 			fmt.Sscanf(id, "hist/%d", &i)
 			historyCase(c, which, i, c.N(12, 25))
@@ -75,7 +123,9 @@ func historyCase(c *core.Ctx, which string, i, nsteps int) {
 	g := &pj.Gen{R: c.Rand(id)}
 	dir := filepath.Join(c.Scratch, fmt.Sprintf("%s-h%d", which, i))
 	s := pj.NewSession(dir)
-	defer os.RemoveAll(dir)
+	if os.Getenv("VERIF_KEEP") == "" {
+		defer os.RemoveAll(dir)
+	}
 	p := g.Project()
 	if which == "C02" && i%2 == 1 {
 		// module top-level code yields between load statements: package and module load order is
